@@ -237,3 +237,19 @@ func TestStreamBsc(t *testing.T) {
 	}
 	out.write(t, "bsc")
 }
+
+// TestStreamEth generates the ETH header stream (C18).
+func TestStreamEth(t *testing.T) {
+	seed := uint64(envInt("VERIF_SEED", 1))
+	cases := envInt("VERIF_CASES", 6)
+	nops := envInt("VERIF_OPS", 40)
+	out := &streamOut{stats: map[string]int{}}
+	for i := 0; i < cases; i++ {
+		r := &Rng{s: seed*1000003 + uint64(i)*7919 + 91}
+		w := NewWorld(t, 1)
+		g := &EthGen{w: w, r: r, stats: map[string]int{}}
+		g.Run(nops, i)
+		out.add(w, g.stats)
+	}
+	out.write(t, "eth")
+}
